@@ -10,7 +10,7 @@ L=$S/confirm.log
 : > $L
 cd $WT || exit 2
 git checkout -q -- . && git clean -qfd crates
-low=$(echo $id | tr A-Z a-z)
+low=$(echo $id | tr A-Z a-z | sed "s/[a-z]$//; s/^c/c/")
 if [ -f $S/demo.diff ]; then
   git apply $S/demo.diff >> $L 2>&1 || { echo "DEMO APPLY FAILED" >> $L; }
   crate=$(grep -o "cargo test -p [a-z_-]*" $S/demo.md | head -1 | awk '{print $4}'); [ -z "$crate" ] && crate=parol-ls
